@@ -16,8 +16,8 @@ env.links, the model resolves them: `saveR`); the path argument is also given re
 pathlib.Path / as a jsonargparse Path object; skip_validation, deprecated skip_check and skip_none are passed;
 sub-files are also loaded from sub-directories; the model's `writtenCount` (theorem C18_failure_exact) must equal
 the number of sub-files the oracle lets a failing run leave behind; the fsspec branch runs against an in-process
-memory:// file system and the model `saveFsspec` (probe of Path(mode="sw"), no check_overwrite, open before
-dump: two open findings).
+memory:// file system and the model `saveFsspec` (since fixes 22a2e9a / 8a0a805: recognition without probe,
+NotImplementedError first, overwrite check, dump before open; the former findings are fixed, demos fixes/f60, f61).
 """
 from __future__ import annotations
 
@@ -51,9 +51,10 @@ MANIFEST = {
             "(C18_partial_is_sharp). Path aliasing is decided over a file-system model with an explicit resolve function (saveR): no-overwrite, "
             "frame and all-or-nothing hold through symbolic links / relative spellings / two names for one file; colliding names, a sub-file "
             "named like the target, dangling links and uncreatable resolved locations are decided by theorems. The fsspec branch is modelled "
-            "(saveFsspec, including the open-for-writing probe of Path(mode='sw')): both halves of the property are refuted there by witnesses "
-            "(two open findings), with frame, success-writes, a partial theorem and the exact statement that every failure past the probe leaves "
-            "the target empty. The model is tied to the code by regenerating from the AST the order of effect steps of both local modes, of "
+            "(saveFsspec; since fixes 22a2e9a/8a0a805 recognition without write-probe, NotImplementedError first, overwrite check, dump before open): "
+            "no-overwrite and all-or-nothing hold there at full strength and are stated as ONE theorem over both branches (saveAny: "
+            "C18_no_overwrite_any, C18_all_or_nothing_single_any), with frame, success-writes and equality with the local single-file branch; the "
+            "branch as it was (saveFsspecOld) is kept as a regression record with its refutations. The model is tied to the code by regenerating from the AST the order of effect steps of both local modes, of "
             "save_paths and of the fsspec block with its guards, the probe of Path, the file expression of every check_overwrite/open pair, "
             "the signature and the normalised text of EVERY statement of save (compared with the text the model was transcribed from), and by "
             "running the real save (local directory and memory:// file system) with injected failures against the model.",
@@ -61,15 +62,13 @@ MANIFEST = {
                   "reference (validate/dump/dump_using_format decide the fault vector handed to the model; skip_validation/skip_check/skip_none/"
                   "format are handed through to it, so the flags are exercised but their effect on the TEXT is an input of the model). "
                   "OS-level partial writes after a successful open, close() failing, remote fsspec back-ends other than memory:// (the model "
-                  "assumes what memory:// does: opening for writing creates/truncates), http(s) URL targets, branch= (subcommands), FIFO targets, "
+                  "assumes what memory:// does: isfile is exact, opening for writing creates/truncates), http(s) URL targets, branch= (subcommands), FIFO targets, "
                   "chains of symbolic links (the harness hands the model fully resolved destinations) and other processes changing the directory "
                   "or permissions during the save are outside the model.",
 }
 
 FINDING_PARTIAL = "C18-multifile-partial"
 FINDING_COLLISION = "C18-basename-collision"
-FINDING_FS_OVERWRITE = "C18-fsspec-silent-overwrite"
-FINDING_FS_TRUNC = "C18-fsspec-truncates-on-failure"
 NOBODY = 65534
 VALID_FORMATS = ("parser_mode", "yaml", "json", "json_indented")
 
@@ -1018,16 +1017,17 @@ def gen_fsspec_scenario(rng):
 
 
 def fsspec_faults(sc):
+    """k counts the fsspec.open(<target>, 'w') calls of one save(): since fix 22a2e9a there is exactly one (k=0, save's own
+    open; the write-probe of Path(mode="sw") is gone).  k=1 is kept: an open that never happens must change nothing."""
     out = [{"kind": "none"}, {"kind": "invalid", "key": "top"}, {"kind": "invalid", "key": "name", "as": "list"},
            {"kind": "unser", "key": "any"}, {"kind": "enum", "key": "col"},
-           {"kind": "open", "k": 0}, {"kind": "open", "k": 1}, {"kind": "write", "k": 1}]
+           {"kind": "open", "k": 0}, {"kind": "write", "k": 0}, {"kind": "open", "k": 1}]
     return out
 
 
 class FsspecPatch:
-    """while active, the k-th fsspec.open(<below root>, 'w') fails: k=0 is the probe inside Path(mode='sw') (it fails the way
-    a missing bucket does: FileNotFoundError), k=1 is save's own open (OSError); kind 'write': the handle's write fails
-    after the file was really opened"""
+    """while active, the k-th fsspec.open(<below root>, 'w') fails with OSError (k=0 is save's own open; there is no other
+    since fix 22a2e9a); kind 'write': the handle's write fails after the file was really opened"""
 
     def __init__(self, root, kind, k):
         self.root, self.kind, self.k, self.n = root, kind, k, 0
@@ -1045,8 +1045,6 @@ class FsspecPatch:
             idx = me.n
             me.n += 1
             if me.kind == "open" and idx == me.k:
-                if idx == 0:
-                    raise FileNotFoundError("injected: probe fails")
                 raise InjectedOpenError("injected: open fails")
             of = real(urlpath, mode, *a, **kw)
             if me.kind == "write" and idx == me.k:
@@ -1108,9 +1106,9 @@ def run_fsspec_case(sc, fault):
         fmt_ok = fmt in VALID_FORMATS
         skipv, skip_none = dump_flags(sc)
         mi = {"branch": "fsspec", "path": sc["target"], "overwrite": sc.get("overwrite"), "multifile": sc.get("multifile"),
-              "format_ok": fmt_ok, "probe_ok": not (fault.get("kind") == "open" and fault.get("k") == 0),
-              "wr": {"open": not (fault.get("kind") == "open" and fault.get("k") == 1),
-                     "write": not (fault.get("kind") == "write" and fault.get("k") == 1)},
+              "format_ok": fmt_ok,
+              "wr": {"open": not (fault.get("kind") == "open" and fault.get("k") == 0),
+                     "write": not (fault.get("kind") == "write" and fault.get("k") == 0)},
               "fs": sorted([n, c.decode("utf-8")] for n, c in before.items())}
         if not fmt_ok:
             mi["dump"] = {"fail": "format"}
@@ -1152,19 +1150,18 @@ def judge_fsspec(res, sc, fault):
     changed = sorted(n for n in set(before) | set(after) if before.get(n) != after.get(n))
     if [n for n in changed if n != t]:
         out.append((None, "fsspec save touched files other than the target: %s" % changed))
+    # (a) without overwrite no existing file changes
+    if sc.get("overwrite") is not True and t in before and t in changed:
+        out.append((None, "overwrite not requested, fsspec target existed and was changed (outcome %s)" % res["outcome"]))
     if res["outcome"] == "ok":
-        if sc.get("overwrite") is not True and t in before and t in changed:
-            out.append((FINDING_FS_OVERWRITE, "overwrite not requested, fsspec target existed: replaced, save reported success"))
         if sc.get("skip_validation") and fault.get("kind") == "invalid":
             pass
         elif res["reparse_err"] is not None or res["reparsed"] != res["expected_cfg"]:
             out.append((None, "fsspec target does not re-parse to the configuration (%s)" % (res["reparse_err"] or "values differ")))
-    elif t in changed:
-        if after.get(t) == b"" and res["outcome"] not in ("format", "path"):
-            out.append((FINDING_FS_TRUNC, "save to an fsspec target raised (%s); the target %s" %
-                        (res["outcome"], "was emptied" if t in before else "was created empty")))
-        else:
-            out.append((None, "save to an fsspec target raised (%s) and the target changed" % res["outcome"]))
+    elif t in changed and res["outcome"] != "io":
+        # (b) failure -> nothing changed (class io = the back-end failing in the middle of the write is outside the property)
+        out.append((None, "save to an fsspec target raised (%s) and the target %s" %
+                    (res["outcome"], ("was emptied" if after.get(t) == b"" else "changed") if t in before else "was created")))
     return out
 
 
@@ -1284,7 +1281,7 @@ def run(ctx: Ctx):
                 "through dir/../dir, pathlib.Path or a jsonargparse Path(mode='fc') object; skip_validation in {omitted,False,True, deprecated skip_check=True}, skip_none in {omitted,False}; "
                 "a sub-file NAME in the target directory that is a symbolic link (to its own existing/dangling file, to another sub-file's name, to the target's name); "
                 "plus scenarios on an in-process memory:// file system (fsspec branch: existing/new target, overwrite, multifile, format, flags; faults: invalid/unserialisable value, "
-                "probe of Path(mode='sw') failing, save's open failing, write failing); for every scenario a failure is injected at EACH step (invalid value at each typed key, "
+                "fsspec.open failing, write failing); for every scenario a failure is injected at EACH step (invalid value at each typed key, "
                 "unserialisable value at each Any key, Enum at each enum key, k-th open fails, k-th write fails) plus the fault-free run; each "
                 "(scenario, fault) runs the real parser.save in a temp dir and the Lean model; non-trivial = output directory holds >=1 pre-existing "
                 "file and save gets past the format/path checks; distinct by JSON of (scenario, fault)")
